@@ -73,6 +73,53 @@ class ReadingZone(datetime.tzinfo):
         return self
 
 
+class SharedZone(datetime.tzinfo):
+    """ONE tzinfo object for several readings of a zone (the "calls" family): answers with the offset in force at the
+    datetime it is asked about - looked up by wall-clock fields and fold - and with `at1970` for anything else"""
+
+    def __init__(self, at1970, readings):
+        self.at1970 = at1970
+        self.table = {(tuple(p["ymd"]) + tuple(p["hms"]), p["fold"]): p["zone"][1] for p in readings}
+
+    def utcoffset(self, dt):
+        if dt is None:
+            return datetime.timedelta(minutes=self.at1970)
+        key = ((dt.year, dt.month, dt.day, dt.hour, dt.minute, dt.second), dt.fold)
+        return datetime.timedelta(minutes=self.table.get(key, self.at1970))
+
+    def dst(self, dt):
+        return datetime.timedelta(0)
+
+    def tzname(self, dt):
+        return "S%+d" % self.at1970
+
+    def __repr__(self):
+        return "SharedZone(at1970=%+dmin, %d readings)" % (self.at1970, len(self.table))
+
+    def __deepcopy__(self, memo):
+        return self
+
+
+def is_calls(t):
+    return t[0] == "calls"
+
+
+def calls_datetimes(readings):
+    """the datetimes of a "calls" case: all carry the SAME tzinfo object"""
+    if len({p["zone"][0] for p in readings}) != 1:
+        raise Machinery("readings of different zones in one calls case")
+    zone = SharedZone(readings[0]["zone"][0], readings)
+    out = []
+    for p in readings:
+        y, m, d = p["ymd"]
+        h, mi, s = p["hms"]
+        dt = datetime.datetime(y, m, d, h, mi, s, p["us"], tzinfo=zone, fold=p["fold"])
+        if dt.utcoffset() != datetime.timedelta(minutes=p["zone"][1]):
+            raise Machinery("the shared zone does not answer %r with %+d min" % (dt, p["zone"][1]))
+        out.append(dt)
+    return out
+
+
 class Env(object):
     """the driver modules under test + caches of columns / types built from type trees"""
 
@@ -147,6 +194,8 @@ def cass_name(t, nested=False):
 
 def cql_name(t):
     k = t[0]
+    if k == "calls":
+        return "timestamp (conversions one after the other, one zone object)"
     if CD.is_scalar(t):
         return k
     if k in ("list", "set"):
@@ -430,6 +479,50 @@ def judge_leaf(env, k, val, accept, expect, out):
         out.open.append("instant outside the years 1..9999 of UTC: cqlengine %s, core %s" % (same(res.get("cqlengine")), same(res.get("core"))))
 
 
+def judge_calls(env, st, out):
+    """a sequence of aware datetimes sharing ONE tzinfo object, converted one after the other by the same column / type:
+    the k-th must be stored as ITS instant (the k-th 8 bytes of the specification's answer)"""
+    col, T = env.column(["timestamp"]), env.core_type(["timestamp"])
+    readings = st["val"]
+    want = [bytes(st["enc"][8 * k:8 * k + 8]).hex() for k in range(len(readings))]
+    for who in ("cqlengine", "cqlengine-save", "core"):
+        dts = calls_datetimes(readings)                      # a fresh zone object per path: no history from another path
+        w = "core" if who == "core" else "cqlengine"
+        for k, dt in enumerate(dts):
+            produce = {"cqlengine": lambda: col.to_database(dt), "cqlengine-save": lambda: col.to_database(col.validate(dt)), "core": lambda: dt}[who]
+            got = _call(produce)
+            out.n += 1
+            if got[0] == "raised":
+                out.dev("%s:DateTime:aware:raised" % w, "conversion %d of %r raised %s" % (k + 1, dts, got[1]), {"value": repr(dts)})
+                break
+            b = _call(T.serialize, got[1], 4)
+            if b[0] == "raised":
+                out.dev("%s:DateTime:aware:unserialisable" % w, "conversion %d of %r: %r cannot be serialised: %s" % (k + 1, dts, got[1], b[1]), {"value": repr(dts)})
+                break
+            h = bytes(b[1]).hex()
+            if h != want[k]:
+                d = _signed(h) - _signed(want[k]) if len(h) == 16 else None
+                earlier = [j for j in range(k) if d is not None and d == (readings[k]["zone"][1] - readings[j]["zone"][1]) * 60000 and d != 0]
+                cause = ("aware:offset-of-an-earlier-conversion-used" if earlier else ts_cause(["aware", readings[k]], h, want[k]))
+                cls = COLUMN_CLASS["timestamp"] if w == "cqlengine" else SCALAR_CLASS["timestamp"]
+                out.dev("%s:%s:%s" % (w, cls, cause),
+                        "conversion %d of %d with one zone object: %r is stored as %s (%+d ms); it denotes %s%s"
+                        % (k + 1, len(dts), dt, h, d or 0, want[k], " - off by the difference to the offset of conversion %d" % (earlier[0] + 1) if earlier else ""),
+                        {"value": repr(dts), "real": h, "spec": want[k], "path": who, "conversion": k + 1})
+                break
+
+
+def crosscheck_calls(st):
+    want = b""
+    for p in st["val"]:
+        y, m, d = p["ymd"]
+        h, mi, s = p["hms"]
+        secs = (datetime.date(y, m, d).toordinal() - 719163) * 86400 + h * 3600 + mi * 60 + s - p["zone"][1] * 60
+        want += (secs * 1000 + p["us"] // 1000).to_bytes(8, "big", signed=True)
+    if want != bytes(st["enc"]):
+        raise Machinery("the specification's bytes of the calls case %r are not Python's %s" % (st["val"], want.hex()))
+
+
 def leaves_of(t, v):
     """(kind, leaf value) for every scalar position of a composite value"""
     k = t[0]
@@ -461,6 +554,9 @@ def judge(env, st, leaf_encs=None, always_whole=False):
     of the scalar cases of the same enumeration (needed for composites)"""
     t, v, expect = st["ty"], st["val"], st["expect"]
     out = Out()
+    if is_calls(t):
+        judge_calls(env, st, out)
+        return out.n, out.devs, out.open
     if CD.is_scalar(t):
         judge_leaf(env, t[0], v, {bytes(e).hex() for e in st["img"]}, expect, out)
         return out.n, out.devs, out.open
